@@ -111,7 +111,7 @@ def step_case(prog, case, budget):
     judges = [JUDGES[j] for j in case['judges']]
     import random
     wrng = random.Random(hash((budget.get('seed', 0), case.get('name', str(case.get('line'))))) & 0xffffffff)
-    simple = isinstance(case.get('line'), str) and not any(k in case for k in ('item', 'call', 'prelude', 'pre_items', 'then', 'setup', 'conn_setup'))
+    simple = isinstance(case.get('line'), str) and case.get('line') != '' and not any(k in case for k in ('item', 'prelude', 'pre_items', 'setup', 'conn_setup')) and case.get('call') in (None, 'product')
     def run(M):
         ctx = run_step(M, prog, case)
         return ctx
